@@ -79,6 +79,35 @@ func (c *c06) famAliased() {
 		m.Mul(&m, a)
 		c.op("alias.mont.Mul(m,m,a)", "-> %s", core.Hex8(m[:]))
 	}
+	// ---- object reuse: an expanded point copied by value, then re-set, then both used ----
+	{
+		ep := curve.NewExpandedEdwardsPoint(p)
+		snap := *ep // value copy: must stay the expansion of p
+		ep.SetEdwardsPoint(q)
+		var o1, o2 curve.EdwardsPoint
+		o1.ExpandedDoubleScalarMulBasepointVartime(a, &snap, b)
+		o2.ExpandedDoubleScalarMulBasepointVartime(a, ep, b)
+		c.op("reuse.ed.ExpandedEdwardsPoint(copy, SetEdwardsPoint, use both)", "-> %s %s point=%s", c06he(&o1), c06he(&o2), c06he(snap.Point()))
+		var o3 curve.EdwardsPoint
+		o3.ExpandedMultiscalarMulVartime([]*scalar.Scalar{a, b}, []*curve.ExpandedEdwardsPoint{&snap, ep}, nil, nil)
+		c.op("reuse.ed.ExpandedMultiscalarMulVartime(copy and re-set original)", "-> %s", c06he(&o3))
+		var z curve.ExpandedEdwardsPoint // zero value used as a receiver, twice
+		z.SetEdwardsPoint(p)
+		z.SetEdwardsPoint(w)
+		var o4 curve.EdwardsPoint
+		o4.ExpandedTripleScalarMulBasepointVartime(a, &z, b, q)
+		c.op("reuse.ed.ExpandedEdwardsPoint(zero value set twice)", "-> %s", c06he(&o4))
+	}
+	{
+		rp0, rq0 := c.ris(), c.ris()
+		ep := curve.NewExpandedRistrettoPoint(rp0)
+		snap := *ep
+		ep.SetRistrettoPoint(rq0)
+		var o1, o2 curve.RistrettoPoint
+		o1.ExpandedDoubleScalarMulBasepointVartime(a, &snap, b)
+		o2.ExpandedDoubleScalarMulBasepointVartime(a, ep, b)
+		c.op("reuse.ris.ExpandedRistrettoPoint(copy, SetRistrettoPoint, use both)", "-> %s %s", c06hr(&o1), c06hr(&o2))
+	}
 	// ---- Ristretto ----
 	rp, rq := cr(c.ris()), c.ris()
 	y := cr(rp)
